@@ -439,7 +439,46 @@ def r04_5(ctx: Ctx) -> None:
               construct="digest of the packed header stream")
 
 
+def r04_7(ctx: Ctx) -> None:
+    """testzip's full-decode request (skip_notarget=False) reaches every folder task, sequential and parallel."""
+    f = ctx.prog.func("py7zr", "Worker.extract")
+    tgt = ctx.prog.func("py7zr", "Worker.extract_single")
+    params = tgt.params[1:]
+    ctx.need("skip_notarget" in params and "skip_notarget" in f.params, "skip_notarget parameter vanished")
+    idx = params.index("skip_notarget")
+    n = 0
+    for c in q.calls(f):
+        if attr_tail(c) == "extract_single":
+            # lists of members without a stream have nothing to decode
+            lst = c.args[1] if len(c.args) > 1 else None
+            if isinstance(lst, ast.Name) and lst.id.startswith("empty"):
+                continue
+            n += 1
+            v = c.args[idx] if idx < len(c.args) else next((k.value for k in c.keywords if k.arg == "skip_notarget"), None)
+            ctx.check(v is not None and norm(v) == "skip_notarget", "R04.7", f, c, "skip_notarget forwarded to the folder extractor",
+                      "a folder is extracted without forwarding skip_notarget: testzip() (skip_notarget=False) silently skips members it was asked to verify")
+        tg = next((k.value for k in c.keywords if k.arg == "target"), None)
+        args = next((k.value for k in c.keywords if k.arg == "args"), None)
+        if tg is not None and isinstance(args, ast.Tuple) and norm(tg).endswith("extract_single"):
+            n += 1
+            v = args.elts[idx] if idx < len(args.elts) else None
+            ctx.check(v is not None and norm(v) == "skip_notarget", "R04.7", f, c, "skip_notarget forwarded to the parallel folder task",
+                      "the parallel folder task is started without skip_notarget: with testzip() on a multi-folder archive nothing is decoded and every damage is certified as good")
+    ctx.floor("R04.7", n, 3, "folder extractor invocations in Worker.extract")
+    tz = shared.szf(ctx, "testzip")
+    ex = [c for c in q.calls(tz) if attr_tail(c) == "extract"]
+    ok = bool(ex) and any(k.arg == "skip_notarget" and isinstance(k.value, ast.Constant) and k.value.value is False for k in ex[0].keywords)
+    ctx.check(ok, "R04.7", tz, ex[0] if ex else tz.node, "testzip requests a full decode", "testzip() does not request skip_notarget=False")
+    # every member is registered (None) so that all of them are decoded for checking
+    reg = [c for c in q.calls(tz) if attr_tail(c) == "register_filelike"]
+    ok = bool(reg) and q.enclosing_loops(tz, reg[0]) and norm(q.enclosing_loops(tz, reg[0])[-1].iter) == "self.files"
+    ctx.check(bool(ok), "R04.7", tz, tz.node, "testzip registers every member for checking", "testzip() does not register every member", construct="testzip registrations")
+
+
 def run(ctx: Ctx) -> None:
+    r04_7(ctx)
+    from . import c10
+    c10.r10_3(ctx)
     r04_1(ctx)
     r04_2(ctx)
     r04_3(ctx)
